@@ -68,9 +68,32 @@ type cmd struct {
 	start, end string
 	limit      int
 	rc, rev    bool
+	// region-scoped commands (ResolveLock, GC, ScanLock, PessimisticRollback without keys): the index of the
+	// region the request is sent to (RPC levels; the runner fills rstart/rend with its raw range)
+	region       int
+	rstart, rend string
 	// filled by the generator for rendering
 	sts     uint64
 	primary string
+}
+
+// regionScoped: the command acts on a range (a region at the RPC levels), not on listed keys.
+func (c *cmd) regionScoped() bool {
+	switch c.op {
+	case opResolve, opBatchResolve, opGC, opScanLock:
+		return true
+	case opPRollback:
+		return len(c.keys) == 0
+	}
+	return false
+}
+
+// effRange: the raw range a region-scoped command acts on.
+func (c *cmd) effRange() (string, string) { return intersect(c.rstart, c.rend, c.start, c.end) }
+
+func (c *cmd) rangeString() string {
+	s, e := c.effRange()
+	return fmt.Sprintf("range=[%q,%q)", s, e)
 }
 
 func (c *cmd) variant() string {
@@ -107,6 +130,14 @@ func (c *cmd) variant() string {
 		if c.rev {
 			return "reverse"
 		}
+	case opPRollback:
+		if len(c.keys) == 0 {
+			return "no-keys"
+		}
+	case opScanLock:
+		if c.start != "" || c.end != "" || c.limit > 0 {
+			return "start/end/limit"
+		}
 	}
 	return ""
 }
@@ -131,7 +162,11 @@ func (c *cmd) String() string {
 	case opPLock:
 		fmt.Fprintf(&b, "%v primary=%s forUpdateTS=%d ttl=%d minCommitTS=%d returnValues=%v checkExistence=%v lockOnlyIfExists=%v", c.keys, c.primary, c.fts, c.ttl, c.minc, c.retVals, c.chkExist, c.onlyIfExists)
 	case opPRollback:
-		fmt.Fprintf(&b, "%v forUpdateTS=%d", c.keys, c.fts)
+		if len(c.keys) == 0 {
+			fmt.Fprintf(&b, "no keys, %s forUpdateTS=%d", c.rangeString(), c.fts)
+		} else {
+			fmt.Fprintf(&b, "%v forUpdateTS=%d", c.keys, c.fts)
+		}
 	case opCommit:
 		fmt.Fprintf(&b, "%v commitTS=%d", c.keys, c.cts)
 	case opRollback:
@@ -143,7 +178,7 @@ func (c *cmd) String() string {
 	case opHeartbeat:
 		fmt.Fprintf(&b, "primary=%s adviseTTL=%d", c.keys[0], c.ttl)
 	case opResolve:
-		fmt.Fprintf(&b, "commitTS=%d", c.cts)
+		fmt.Fprintf(&b, "commitTS=%d %s", c.cts, c.rangeString())
 	case opBatchResolve:
 		var ks []uint64
 		for k := range c.infos {
@@ -153,10 +188,11 @@ func (c *cmd) String() string {
 		for _, k := range ks {
 			fmt.Fprintf(&b, "%d->%d ", k, c.infos[k])
 		}
+		b.WriteString(c.rangeString())
 	case opScanLock:
-		fmt.Fprintf(&b, "maxTS=%d", c.ts)
+		fmt.Fprintf(&b, "maxTS=%d start=%q end=%q limit=%d region range=[%q,%q)", c.ts, c.start, c.end, c.limit, c.rstart, c.rend)
 	case opGC:
-		fmt.Fprintf(&b, "safePoint=%d", c.sp)
+		fmt.Fprintf(&b, "safePoint=%d %s", c.sp, c.rangeString())
 	case opGet:
 		fmt.Fprintf(&b, "%s ts=%d rc=%v", c.keys[0], c.ts, c.rc)
 	case opBatchGet:
@@ -182,6 +218,7 @@ type result struct {
 	hasNotFounds bool
 	pairs        []rpair
 	locks        []lockInfo
+	lockDetails  bool // locks carry type / ttl / for_update_ts / min_commit_ts / txn_size
 }
 
 func (r *result) firstErr() (cls, uint64) {
@@ -379,6 +416,11 @@ func dumpFromInfo(key string, info *kvrpcpb.MvccInfo) dKey {
 
 type driver interface {
 	level() string
+	// nregions: 0 = no regions (ranges are free), else the number of regions; rrange: raw range of region i;
+	// regionOf: index of the region holding key
+	nregions() int
+	rrange(i int) (string, string)
+	regionOf(key string) int
 	fold(cls) cls
 	exec(c *cmd) result
 	dumpKey(key string) dKey
@@ -421,9 +463,12 @@ func newStoreDriver() *storeDriver { return &storeDriver{st: MustNewMVCCStore().
 // resetEvery: DeleteRange leaves tombstones in the memtable; a really fresh store every so many resets keeps it small.
 const resetEvery = 24
 
-func (d *storeDriver) level() string       { return "store" }
-func (d *storeDriver) fold(c cls) cls      { return c }
-func (d *storeDriver) store() *MVCCLevelDB { return d.st }
+func (d *storeDriver) level() string               { return "store" }
+func (d *storeDriver) nregions() int               { return 0 }
+func (d *storeDriver) rrange(int) (string, string) { return "", "" }
+func (d *storeDriver) regionOf(string) int         { return 0 }
+func (d *storeDriver) fold(c cls) cls              { return c }
+func (d *storeDriver) store() *MVCCLevelDB         { return d.st }
 func (d *storeDriver) reset() {
 	d.resets++
 	if d.resets%resetEvery == 0 {
@@ -433,7 +478,7 @@ func (d *storeDriver) reset() {
 	}
 	resetStore(d.st)
 }
-func (d *storeDriver) close()              { d.st.Close() }
+func (d *storeDriver) close() { d.st.Close() }
 func (d *storeDriver) dumpKey(key string) dKey {
 	return dumpFromInfo(key, d.st.MvccGetByKey([]byte(key)))
 }
@@ -456,7 +501,12 @@ func (d *storeDriver) exec(c *cmd) (r result) {
 	case opPLock:
 		r.fromPLockResp(c, st.PessimisticLock(c.plockReq()))
 	case opPRollback:
-		for _, e := range st.PessimisticRollback(nil, nil, bkeys(c.keys), c.sts, c.fts) {
+		ps, pe := c.effRange()
+		var ks [][]byte
+		if len(c.keys) > 0 {
+			ks = bkeys(c.keys)
+		}
+		for _, e := range st.PessimisticRollback([]byte(ps), []byte(pe), ks, c.sts, c.fts) {
 			r.addErr(e)
 		}
 	case opCommit:
@@ -476,17 +526,23 @@ func (d *storeDriver) exec(c *cmd) (r result) {
 		r.addErr(err)
 		r.ttl = ttl
 	case opResolve:
-		r.addErr(st.ResolveLock(nil, nil, c.sts, c.cts))
+		rs, re := c.effRange()
+		r.addErr(st.ResolveLock([]byte(rs), []byte(re), c.sts, c.cts))
 	case opBatchResolve:
-		r.addErr(st.BatchResolveLock(nil, nil, c.infos))
+		rs, re := c.effRange()
+		r.addErr(st.BatchResolveLock([]byte(rs), []byte(re), c.infos))
 	case opScanLock:
 		locks, err := st.ScanLock([]byte(c.start), []byte(c.end), c.ts)
 		r.addErr(err)
 		for _, l := range locks {
-			r.locks = append(r.locks, lockInfo{string(l.Key), l.LockVersion, string(l.PrimaryLock)})
+			r.locks = append(r.locks, lockInfo{key: string(l.Key), ts: l.LockVersion, primary: string(l.PrimaryLock)})
+		}
+		if c.limit > 0 && len(r.locks) > c.limit {
+			r.locks = r.locks[:c.limit] // the MVCCStore method has no limit parameter
 		}
 	case opGC:
-		r.addErr(st.GC(nil, nil, c.sp))
+		gs, ge := c.effRange()
+		r.addErr(st.GC([]byte(gs), []byte(ge), c.sp))
 	case opGet:
 		v, err := st.Get([]byte(c.keys[0]), c.ts, iso(c.rc), nil)
 		if err != nil {
@@ -509,46 +565,80 @@ func (d *storeDriver) exec(c *cmd) (r result) {
 
 // ---------------------------------------------------------------- RPC level
 
+type rinfo struct {
+	ctx        kvrpcpb.Context
+	start, end string // raw range
+}
+
+// rpcDriver sends tikvrpc requests through RPCClient.SendRequest.  With split keys the cluster has several regions
+// whose borders sit ON keys of the key pool (level "rpc-mr"): every request goes to the region of its keys, region
+// scoped requests to the region named by the command, scans walk the regions like a client does.
 type rpcDriver struct {
 	resets  int
+	splits  []string
 	st      *MVCCLevelDB
 	cluster *Cluster
 	client  *RPCClient
 	addr    string
-	ctx     kvrpcpb.Context
+	regions []rinfo
 }
 
-func newRPCDriver() *rpcDriver {
+func newRPCDriver(splits ...string) *rpcDriver {
 	st := MustNewMVCCStore().(*MVCCLevelDB)
 	cluster := NewCluster(st)
-	storeID, _, regionID := BootstrapWithSingleStore(cluster)
-	region, leader := cluster.GetRegion(regionID)
-	d := &rpcDriver{st: st, cluster: cluster, client: NewRPCClient(cluster, st, nil), addr: fmt.Sprintf("store%d", storeID)}
-	d.ctx = kvrpcpb.Context{RegionId: regionID, RegionEpoch: region.RegionEpoch}
-	for _, p := range region.Peers {
-		if p.Id == leader {
-			d.ctx.Peer = p
-		}
+	var sk [][]byte
+	for _, k := range splits {
+		sk = append(sk, []byte(k))
 	}
+	storeID, regionIDs, _ := BootstrapWithMultiRegions(cluster, sk...)
+	d := &rpcDriver{st: st, splits: splits, cluster: cluster, client: NewRPCClient(cluster, st, nil), addr: fmt.Sprintf("store%d", storeID)}
+	for _, id := range regionIDs {
+		region, leader := cluster.GetRegion(id)
+		ri := rinfo{ctx: kvrpcpb.Context{RegionId: id, RegionEpoch: region.RegionEpoch}, start: string(MvccKey(region.StartKey).Raw()), end: string(MvccKey(region.EndKey).Raw())}
+		for _, p := range region.Peers {
+			if p.Id == leader {
+				ri.ctx.Peer = p
+			}
+		}
+		d.regions = append(d.regions, ri)
+	}
+	sort.Slice(d.regions, func(i, j int) bool { return d.regions[i].start < d.regions[j].start })
 	return d
 }
 
-func (d *rpcDriver) level() string       { return "rpc" }
+func (d *rpcDriver) level() string {
+	if len(d.regions) > 1 {
+		return "rpc-mr"
+	}
+	return "rpc"
+}
 func (d *rpcDriver) fold(c cls) cls      { return foldRPC(c) }
 func (d *rpcDriver) store() *MVCCLevelDB { return d.st }
+func (d *rpcDriver) close()              { d.st.Close() }
+func (d *rpcDriver) nregions() int       { return len(d.regions) }
+func (d *rpcDriver) rrange(i int) (string, string) {
+	return d.regions[i].start, d.regions[i].end
+}
+func (d *rpcDriver) regionOf(key string) int {
+	for i, r := range d.regions {
+		if inRange(key, r.start, r.end) {
+			return i
+		}
+	}
+	panic("c12: key in no region: " + key)
+}
 func (d *rpcDriver) reset() {
 	d.resets++
 	if d.resets%resetEvery == 0 {
 		d.st.Close()
-		*d = *newRPCDriver()
+		*d = *newRPCDriver(d.splits...)
 		return
 	}
 	resetStore(d.st)
 }
-func (d *rpcDriver) close()              { d.st.Close() }
 
-func (d *rpcDriver) send(typ tikvrpc.CmdType, req interface{}, rc bool) interface{} {
-	ctx := d.ctx
+func (d *rpcDriver) send(region int, typ tikvrpc.CmdType, req interface{}, rc bool) interface{} {
+	ctx := d.regions[region].ctx
 	if rc {
 		ctx.IsolationLevel = kvrpcpb.IsolationLevel_RC
 	}
@@ -563,50 +653,68 @@ func (d *rpcDriver) send(typ tikvrpc.CmdType, req interface{}, rc bool) interfac
 }
 
 func (d *rpcDriver) dumpKey(key string) dKey {
-	resp := d.send(tikvrpc.CmdMvccGetByKey, &kvrpcpb.MvccGetByKeyRequest{Key: []byte(key)}, false).(*kvrpcpb.MvccGetByKeyResponse)
+	resp := d.send(d.regionOf(key), tikvrpc.CmdMvccGetByKey, &kvrpcpb.MvccGetByKeyRequest{Key: []byte(key)}, false).(*kvrpcpb.MvccGetByKeyResponse)
 	return dumpFromInfo(key, resp.Info)
+}
+
+// keyRegion: the region of the command's keys (the runner splits commands whose keys span regions).
+func (d *rpcDriver) keyRegion(c *cmd) int {
+	rg := d.regionOf(c.keys[0])
+	for _, k := range c.keys[1:] {
+		if d.regionOf(k) != rg {
+			panic("c12: command spans regions: " + c.String())
+		}
+	}
+	return rg
 }
 
 func (d *rpcDriver) exec(c *cmd) (r result) {
 	switch c.op {
 	case opPrewrite:
-		resp := d.send(tikvrpc.CmdPrewrite, c.prewriteReq(), false).(*kvrpcpb.PrewriteResponse)
+		resp := d.send(d.keyRegion(c), tikvrpc.CmdPrewrite, c.prewriteReq(), false).(*kvrpcpb.PrewriteResponse)
 		for _, e := range resp.Errors {
 			r.addKeyErr(e)
 		}
 	case opPLock:
-		r.fromPLockResp(c, d.send(tikvrpc.CmdPessimisticLock, c.plockReq(), false).(*kvrpcpb.PessimisticLockResponse))
+		r.fromPLockResp(c, d.send(d.keyRegion(c), tikvrpc.CmdPessimisticLock, c.plockReq(), false).(*kvrpcpb.PessimisticLockResponse))
 	case opPRollback:
-		resp := d.send(tikvrpc.CmdPessimisticRollback, &kvrpcpb.PessimisticRollbackRequest{StartVersion: c.sts, ForUpdateTs: c.fts, Keys: bkeys(c.keys)}, false).(*kvrpcpb.PessimisticRollbackResponse)
+		rg := c.region
+		req := &kvrpcpb.PessimisticRollbackRequest{StartVersion: c.sts, ForUpdateTs: c.fts}
+		if len(c.keys) > 0 {
+			rg = d.keyRegion(c)
+			req.Keys = bkeys(c.keys)
+		}
+		resp := d.send(rg, tikvrpc.CmdPessimisticRollback, req, false).(*kvrpcpb.PessimisticRollbackResponse)
 		for _, e := range resp.Errors {
 			r.addKeyErr(e)
 		}
 	case opCommit:
-		resp := d.send(tikvrpc.CmdCommit, &kvrpcpb.CommitRequest{StartVersion: c.sts, Keys: bkeys(c.keys), CommitVersion: c.cts}, false).(*kvrpcpb.CommitResponse)
+		resp := d.send(d.keyRegion(c), tikvrpc.CmdCommit, &kvrpcpb.CommitRequest{StartVersion: c.sts, Keys: bkeys(c.keys), CommitVersion: c.cts}, false).(*kvrpcpb.CommitResponse)
 		r.addKeyErr(resp.Error)
 	case opRollback:
-		resp := d.send(tikvrpc.CmdBatchRollback, &kvrpcpb.BatchRollbackRequest{StartVersion: c.sts, Keys: bkeys(c.keys)}, false).(*kvrpcpb.BatchRollbackResponse)
+		resp := d.send(d.keyRegion(c), tikvrpc.CmdBatchRollback, &kvrpcpb.BatchRollbackRequest{StartVersion: c.sts, Keys: bkeys(c.keys)}, false).(*kvrpcpb.BatchRollbackResponse)
 		r.addKeyErr(resp.Error)
 	case opCleanup:
-		resp := d.send(tikvrpc.CmdCleanup, &kvrpcpb.CleanupRequest{Key: []byte(c.keys[0]), StartVersion: c.sts, CurrentTs: c.cur}, false).(*kvrpcpb.CleanupResponse)
+		resp := d.send(d.keyRegion(c), tikvrpc.CmdCleanup, &kvrpcpb.CleanupRequest{Key: []byte(c.keys[0]), StartVersion: c.sts, CurrentTs: c.cur}, false).(*kvrpcpb.CleanupResponse)
 		if resp.Error == nil && resp.CommitVersion != 0 {
 			r.errs, r.lockTS, r.commitTS = []cls{cCommitted}, []uint64{0}, resp.CommitVersion
 		} else {
 			r.addKeyErr(resp.Error)
 		}
 	case opCheckTxn:
-		resp := d.send(tikvrpc.CmdCheckTxnStatus, &kvrpcpb.CheckTxnStatusRequest{PrimaryKey: []byte(c.keys[0]), LockTs: c.sts, CallerStartTs: c.caller,
+		resp := d.send(d.keyRegion(c), tikvrpc.CmdCheckTxnStatus, &kvrpcpb.CheckTxnStatusRequest{PrimaryKey: []byte(c.keys[0]), LockTs: c.sts, CallerStartTs: c.caller,
 			CurrentTs: c.cur, RollbackIfNotExist: c.rbIfNotExist, ResolvingPessimisticLock: c.resPes}, false).(*kvrpcpb.CheckTxnStatusResponse)
 		r.addKeyErr(resp.Error)
 		if resp.Error == nil {
 			r.ttl, r.commitTS, r.action = resp.LockTtl, resp.CommitVersion, resp.Action
 		}
 	case opHeartbeat:
-		resp := d.send(tikvrpc.CmdTxnHeartBeat, &kvrpcpb.TxnHeartBeatRequest{PrimaryLock: []byte(c.keys[0]), StartVersion: c.sts, AdviseLockTtl: c.ttl}, false).(*kvrpcpb.TxnHeartBeatResponse)
+		resp := d.send(d.keyRegion(c), tikvrpc.CmdTxnHeartBeat, &kvrpcpb.TxnHeartBeatRequest{PrimaryLock: []byte(c.keys[0]), StartVersion: c.sts, AdviseLockTtl: c.ttl}, false).(*kvrpcpb.TxnHeartBeatResponse)
 		r.addKeyErr(resp.Error)
 		r.ttl = resp.LockTtl
 	case opResolve:
-		resp := d.send(tikvrpc.CmdResolveLock, &kvrpcpb.ResolveLockRequest{StartVersion: c.sts, CommitVersion: c.cts}, false).(*kvrpcpb.ResolveLockResponse)
+		// no keys: the whole region
+		resp := d.send(c.region, tikvrpc.CmdResolveLock, &kvrpcpb.ResolveLockRequest{StartVersion: c.sts, CommitVersion: c.cts}, false).(*kvrpcpb.ResolveLockResponse)
 		r.addKeyErr(resp.Error)
 	case opBatchResolve:
 		req := &kvrpcpb.ResolveLockRequest{}
@@ -618,19 +726,21 @@ func (d *rpcDriver) exec(c *cmd) (r result) {
 		for _, k := range ks {
 			req.TxnInfos = append(req.TxnInfos, &kvrpcpb.TxnInfo{Txn: k, Status: c.infos[k]})
 		}
-		resp := d.send(tikvrpc.CmdResolveLock, req, false).(*kvrpcpb.ResolveLockResponse)
+		resp := d.send(c.region, tikvrpc.CmdResolveLock, req, false).(*kvrpcpb.ResolveLockResponse)
 		r.addKeyErr(resp.Error)
 	case opScanLock:
-		resp := d.send(tikvrpc.CmdScanLock, &kvrpcpb.ScanLockRequest{MaxVersion: c.ts}, false).(*kvrpcpb.ScanLockResponse)
+		resp := d.send(c.region, tikvrpc.CmdScanLock, &kvrpcpb.ScanLockRequest{MaxVersion: c.ts, StartKey: []byte(c.start), EndKey: []byte(c.end), Limit: uint32(c.limit)}, false).(*kvrpcpb.ScanLockResponse)
 		r.addKeyErr(resp.Error)
+		r.lockDetails = true
 		for _, l := range resp.Locks {
-			r.locks = append(r.locks, lockInfo{string(l.Key), l.LockVersion, string(l.PrimaryLock)})
+			r.locks = append(r.locks, lockInfo{key: string(l.Key), ts: l.LockVersion, primary: string(l.PrimaryLock), op: l.LockType, ttl: l.LockTtl,
+				fts: l.LockForUpdateTs, minc: l.MinCommitTs, txnSize: l.TxnSize})
 		}
 	case opGC:
-		resp := d.send(tikvrpc.CmdGC, &kvrpcpb.GCRequest{SafePoint: c.sp}, false).(*kvrpcpb.GCResponse)
+		resp := d.send(c.region, tikvrpc.CmdGC, &kvrpcpb.GCRequest{SafePoint: c.sp}, false).(*kvrpcpb.GCResponse)
 		r.addKeyErr(resp.Error)
 	case opGet:
-		resp := d.send(tikvrpc.CmdGet, &kvrpcpb.GetRequest{Key: []byte(c.keys[0]), Version: c.ts}, c.rc).(*kvrpcpb.GetResponse)
+		resp := d.send(d.keyRegion(c), tikvrpc.CmdGet, &kvrpcpb.GetRequest{Key: []byte(c.keys[0]), Version: c.ts}, c.rc).(*kvrpcpb.GetResponse)
 		if resp.Error != nil {
 			cl, l := classifyKeyErr(resp.Error)
 			r.pairs = []rpair{{key: c.keys[0], c: cl, lockTS: l}}
@@ -638,18 +748,51 @@ func (d *rpcDriver) exec(c *cmd) (r result) {
 			r.pairs = []rpair{{key: c.keys[0], val: string(resp.Value)}}
 		}
 	case opBatchGet:
-		resp := d.send(tikvrpc.CmdBatchGet, &kvrpcpb.BatchGetRequest{Keys: bkeys(c.keys), Version: c.ts}, c.rc).(*kvrpcpb.BatchGetResponse)
-		r.pairs = pairsFromPB(resp.Pairs)
-	case opScan:
-		req := &kvrpcpb.ScanRequest{Version: c.ts, Limit: uint32(c.limit), Reverse: c.rev}
-		if c.rev {
-			// TiKV uses [end_key, start_key) for a reverse scan
-			req.StartKey, req.EndKey = []byte(c.end), []byte(c.start)
-		} else {
-			req.StartKey, req.EndKey = []byte(c.start), []byte(c.end)
+		// one request per run of consecutive keys of the same region (the answer keeps the request order)
+		for i := 0; i < len(c.keys); {
+			rg := d.regionOf(c.keys[i])
+			j := i
+			for j < len(c.keys) && d.regionOf(c.keys[j]) == rg {
+				j++
+			}
+			resp := d.send(rg, tikvrpc.CmdBatchGet, &kvrpcpb.BatchGetRequest{Keys: bkeys(c.keys[i:j]), Version: c.ts}, c.rc).(*kvrpcpb.BatchGetResponse)
+			r.pairs = append(r.pairs, pairsFromPB(resp.Pairs)...)
+			i = j
 		}
-		resp := d.send(tikvrpc.CmdScan, req, c.rc).(*kvrpcpb.ScanResponse)
-		r.pairs = pairsFromPB(resp.Pairs)
+	case opScan:
+		// like a client: region by region, the lower bound clamped into the region (the handler clamps the upper one)
+		order := make([]int, len(d.regions))
+		for i := range order {
+			order[i] = i
+			if c.rev {
+				order[i] = len(d.regions) - 1 - i
+			}
+		}
+		remaining := c.limit
+		for _, rg := range order {
+			ri := d.regions[rg]
+			if remaining <= 0 {
+				break
+			}
+			if s, e := intersect(ri.start, ri.end, c.start, c.end); e != "" && s >= e {
+				continue
+			}
+			lower := c.start
+			if ri.start > lower {
+				lower = ri.start
+			}
+			req := &kvrpcpb.ScanRequest{Version: c.ts, Limit: uint32(remaining), Reverse: c.rev}
+			if c.rev {
+				// TiKV uses [end_key, start_key) for a reverse scan
+				req.StartKey, req.EndKey = []byte(c.end), []byte(lower)
+			} else {
+				req.StartKey, req.EndKey = []byte(lower), []byte(c.end)
+			}
+			resp := d.send(rg, tikvrpc.CmdScan, req, c.rc).(*kvrpcpb.ScanResponse)
+			ps := pairsFromPB(resp.Pairs)
+			r.pairs = append(r.pairs, ps...)
+			remaining -= len(ps)
+		}
 	}
 	return r
 }
